@@ -36,12 +36,12 @@ type scriptVal struct {
 
 // Result of a native run.
 type Outcome struct {
-	Failed   []string `json:"failed"`
-	Notes    []string `json:"notes"`
-	Reached  []string `json:"reached"`
-	Invalid  string   `json:"invalid,omitempty"` // script did not fit the run (engine defect)
-	Panicked string   `json:"panicked,omitempty"`
-	Exhausted bool    `json:"exhausted,omitempty"` // the script ended before the harness did
+	Failed    []string `json:"failed"`
+	Notes     []string `json:"notes"`
+	Reached   []string `json:"reached"`
+	Invalid   string   `json:"invalid,omitempty"` // script did not fit the run (engine defect)
+	Panicked  string   `json:"panicked,omitempty"`
+	Exhausted bool     `json:"exhausted,omitempty"` // the script ended before the harness did
 }
 
 var (
@@ -187,6 +187,7 @@ func Assume(c bool) {
 		panic(assumeFailed{})
 	}
 }
+
 // Region names the input region of the assertions that follow (appended to their labels), so that
 // a recorded finding is tied to the inputs it concerns and the same assertion stays armed elsewhere.
 func Region(suffix string) { regionSuffix = suffix }
